@@ -399,7 +399,9 @@ func zzRunC08(r *sim.Run) {
 		var evs []ev
 		nev := t.Choose("nevents", 5)
 		for i := 0; i < nev; i++ {
-			evs = append(evs, ev{time.Duration(200+t.Choose("ev.at", 40000)) * time.Millisecond,
+			// (on the 250 ms grid of the miner's own rhythm, so that an event often falls into the very
+			// instant in which a round begins)
+			evs = append(evs, ev{time.Duration(1+t.Choose("ev.at", 160)) * 250 * time.Millisecond,
 				[]string{"tip-better", "tip-earlier", "tip-higher-quality", "tip-worse", "tip-later", "tip-lower-quality", "tip-equal", "reject-on", "reject-off", "sync-lost", "sync-back", "reorg", "restart"}[t.Choose("ev.kind", 13)]})
 		}
 		sort.Slice(evs, func(i, j int) bool { return evs[i].at < evs[j].at })
@@ -414,6 +416,8 @@ func zzRunC08(r *sim.Run) {
 					break
 				}
 				time.Sleep(time.Until(start.Add(e.at)))
+				// the scheduler decides whether the event or the miner goes first in this instant
+				vsim.Yield("event due")
 				switch e.what {
 				case "tip-better", "tip-worse", "tip-equal", "tip-earlier", "tip-later", "tip-higher-quality", "tip-lower-quality":
 					cur := w.best
@@ -452,6 +456,9 @@ func zzRunC08(r *sim.Run) {
 						// ... and a tip that comes after the template was drawn but before the round's
 						// monitor exists is visible to the miner all the same: the best block is no longer
 						// the template's parent when the monitor starts
+						if w.cur != nil && w.cur.prev == *cur.Hash && !w.cur.watching {
+							r.Probe("better-tip-between-template-and-monitor")
+						}
 						if w.cur != nil && w.cur.prev == *cur.Hash && !w.cur.tipBetter && (len(ws) > 0 || !w.cur.watching) {
 							w.cur.tipBetter, w.cur.tipAt = true, time.Now()
 						}
